@@ -318,7 +318,8 @@ def build(S, log, hooks=None):
     if S["syscap"] != INF:
         kw["system_capacity"] = S["syscap"]
     if S.get("ccm"):
-        kw["class_change_matrices"] = [{c: dict(row) for c, row in m.items()} for m in S["ccm"]]
+        order = [c for c in (S.get("ccm_order") or classes) if c in classes] or classes
+        kw["class_change_matrices"] = [{c: {d: m[c][d] for d in order} for c in order} for m in S["ccm"]]
     if any(S["ps"]):
         kw["ps_thresholds"] = list(S["ps_thr"])
 
